@@ -289,8 +289,11 @@ def universe_sigs(spec, mode, future, twin=False):
             # ... because evaluation raises something else than NameError (a class that is generic only in its stub file,
             # an attribute that only exists for the type checker)
             a = ['T[int]', 'T.only_in_stubs', 'T'][i % 3]
+        if mode == 5:
+            # postponed annotations that build a new object every time they are evaluated: an object still equals itself
+            a = ['object()', '(lambda v: v)', 'float("nan")'][i % 3]
         ps.append(p._replace(default=d, ann=a))
-    ret = {0: '', 1: " -> 'ret'", 2: ' -> T', 3: ' -> MissingToo', 4: ' -> T[str]'}[mode]
+    ret = {0: '', 1: " -> 'ret'", 2: ' -> T', 3: ' -> MissingToo', 4: ' -> T[str]', 5: ' -> object()'}[mode]
     src = 'def f(%s)%s:\n    return 0\n' % (universe.spec_text(tuple(ps)), ret)
     g = realfn.load(src, dict(GLOBS), register=False, flags=__future__.annotations.compiler_flag if future else 0)
     if twin:
@@ -302,9 +305,10 @@ def shard_universe(arg):
     specs, = arg
     st = Stats()
     for spec in specs:
-        for mode, future in ((0, False), (1, False), (2, False), (2, True), (3, True), (4, True)):
+        for mode, future in ((0, False), (1, False), (2, False), (2, True), (3, True), (4, True), (5, True)):
             sig, again = universe_sigs(spec, mode, future, twin=True)
-            check_signature_object(sig, 'universe/mode%d%s' % (mode, '/postponed' if future else ''), st, enum=True, twin=again)
+            # (mode 5: whether two separate retrievals are equal is not pinned down -- each evaluation gives another object)
+            check_signature_object(sig, 'universe/mode%d%s' % (mode, '/postponed' if future else ''), st, enum=True, twin=again if mode != 5 else None)
     return st
 
 
@@ -386,10 +390,10 @@ def replay(case, stats):
     import __future__
     src = 'def f%s:\n    return 0\n' % case['signature']
     origin = case.get('origin', 'replay')
-    future = 'postponed' in origin or 'mode3' in origin or 'mode4' in origin
+    future = 'postponed' in origin or 'mode3' in origin or 'mode4' in origin or 'mode5' in origin
     if future:
         # the signature text shows postponed annotations as quoted strings
         import re
         src = re.sub(r"(:|->) '([^']*)'", r'\1 \2', src)
     g = realfn.load(src, dict(GLOBS, **{'ret': 'ret'}), register=False, flags=__future__.annotations.compiler_flag if future else 0)
-    check_signature_object(signatures.signature(g['f']), origin, stats, twin=signatures.signature(g['f']))
+    check_signature_object(signatures.signature(g['f']), origin, stats, twin=signatures.signature(g['f']) if 'mode5' not in origin else None)
